@@ -153,6 +153,7 @@ func c05SCION(r *ev.Run, rng *rand.Rand, nScripts int) {
 			if alt && calls%2 == 0 {
 				ra.Host.Port = 10124
 			}
+			defer scionQuiesce()
 			return client.MeasureClockOffsetSCION(ctx, log, []*client.SCIONClient{cc}, la, ra, []snet.Path{pth})
 		}, rng, map[bool]int{false: nScripts / 2, true: nScripts / 6}[fresh || alt])
 		s.Close()
